@@ -2702,6 +2702,13 @@ rfbProcessClientNormalMessage(rfbClientPtr cl)
 	if(!cl->viewOnly) {
 	    if (msg.pe.buttonMask != cl->lastPtrButtons ||
 		    cl->screen->deferPtrUpdateTime == 0) {
+		if (cl->lastPtrX >= 0) {
+		    /* deliver the coalesced position first: events stay in order and no
+		       stale position is delivered after (and with the buttons of) a newer event */
+		    cl->screen->ptrAddEvent(cl->lastPtrButtons, cl->lastPtrX, cl->lastPtrY, cl);
+		    cl->lastPtrX = -1;
+		    cl->startPtrDeferring.tv_usec = 0;
+		}
 		cl->screen->ptrAddEvent(msg.pe.buttonMask,
 			ScaleX(cl->scaledScreen, cl->screen, Swap16IfLE(msg.pe.x)), 
 			ScaleY(cl->scaledScreen, cl->screen, Swap16IfLE(msg.pe.y)),
